@@ -218,6 +218,81 @@ def _requests(r: int, m: int):
             yield list(t)
 
 
+def _d7_cases():
+    import itertools
+
+    for m in (1, 2, 3):
+        for r in (1, 2, 3):
+            for ad in _requests(r, m):
+                yield m, r, ad, (False,) * m, (False,) * r
+    for m in (1, 2):
+        for r in (1, 2):
+            for ad in _requests(r, m):
+                if isinstance(ad, list):
+                    continue
+                for ux in itertools.product((False, True), repeat=m):
+                    for ud in itertools.product((False, True), repeat=r):
+                        if (any(ux) or any(ud)) and not (any(ux) and any(ud)):
+                            yield m, r, ad, ux, ud
+
+
+_STRICT_CACHE: dict = {}
+
+
+def strict_rejection(world, table, cls) -> bool | None:
+    """Semantic form of the strict-variant guard, decided by the axis-provenance interpretation (D7): True when every request
+    whose NumPy product does not have the shape of the leaf raises (at construction or when applied), False when one is
+    accepted, None when the code cannot be followed."""
+    import hashlib
+
+    from ..axinterp import AxArr, Interp, Raised, Undecided, UNK
+
+    key = (hashlib.sha256('\x00'.join(ast.dump(world.modules[m].tree) for m in ('furax._base.diagonal', 'furax._base.core', 'furax.tree') if m in world.modules).encode()).hexdigest(), cls.qual)
+    if key in _STRICT_CACHE:
+        return _STRICT_CACHE[key]
+    diag = table.find(f'{DIAG}.DiagonalOperator')
+    dinv = table.find(f'{DIAG}.DiagonalInverseOperator')
+    verdict: bool | None = True
+    nreject = 0
+    for m, r, ad, ux, ud in _d7_cases():
+        spec = _requested(ad, r, m)
+        if spec == 'dup':
+            continue
+        axes, left, right = spec
+        xsize = [1 if ux[j] else PX[j] for j in range(m)]
+        dsize = [1 if ud[k] else (PX[a] if 0 <= a < m else PD[k]) for k, a in enumerate(axes)]
+        want_shape = [1] * (left + m + right)
+        for j in range(m):
+            want_shape[left + j] = xsize[j]
+        for k, a in enumerate(axes):
+            want_shape[left + a] = max(want_shape[left + a], dsize[k])
+        if tuple(want_shape) == tuple(xsize):
+            continue
+        nreject += 1
+        it = Interp(world, table, budget=20_000)
+        leaf = AxArr(tuple((frozenset({f'x{j}'}), xsize[j]) for j in range(m)))
+        values = AxArr(tuple((frozenset({f'd{k}'}), dsize[k]) for k in range(r)))
+        try:
+            op = it.construct(diag if cls is dinv else cls, values, axis_destination=ad, in_structure=leaf)
+            if cls is dinv:
+                op = it.construct(dinv, op)
+            it.call_method(op, 'mv', leaf)
+        except Raised:
+            continue
+        except Undecided:
+            verdict = None
+            break
+        if it.degraded:
+            verdict = None
+            break
+        verdict = False
+        break
+    if nreject < 100 and verdict is True:
+        verdict = None
+    _STRICT_CACHE[key] = verdict
+    return verdict
+
+
 def _placement(ctx, ck, bcast, diag, dinv) -> None:
     """D7: for every order type of the requested axes (values of rank 1..3, leaves of rank 1..3, scalar and tuple requests,
     negative axes, extension by one or two axes on either side, and - for ranks up to 2 - values or leaves with axes of
@@ -254,22 +329,7 @@ def _placement(ctx, ck, bcast, diag, dinv) -> None:
 
     ck = _Rec()
 
-    def cases():
-        for m in (1, 2, 3):
-            for r in (1, 2, 3):
-                for ad in _requests(r, m):
-                    yield m, r, ad, (False,) * m, (False,) * r
-        import itertools
-
-        for m in (1, 2):
-            for r in (1, 2):
-                for ad in _requests(r, m):
-                    if isinstance(ad, list):
-                        continue
-                    for ux in itertools.product((False, True), repeat=m):
-                        for ud in itertools.product((False, True), repeat=r):
-                            if (any(ux) or any(ud)) and not (any(ux) and any(ud)):
-                                yield m, r, ad, ux, ud
+    cases = _d7_cases
 
     for cls in (bcast, diag, dinv):
         strict = cls is not bcast
